@@ -104,6 +104,16 @@ func ParseLog(r io.Reader) ([]Event, error) {
 		if strings.HasPrefix(rest, "+++") || strings.HasPrefix(rest, "---") {
 			continue // exit / signal notes
 		}
+		if strings.HasPrefix(rest, "???(") {
+			continue // a thread that went away inside a call strace never saw the entry of (none of the traced ones)
+		}
+		if strings.HasSuffix(rest, "<detached ...>") {
+			// the tracer let go of a thread inside a traced call: its outcome is unknown
+			if op := strings.IndexByte(rest, '('); op > 0 {
+				evs = append(evs, Event{Seq: len(evs), Pid: pid, Name: rest[:op], Args: splitArgs(strings.TrimSuffix(rest[op+1:], "<detached ...>")), Unknown: true, Line: ln})
+			}
+			continue
+		}
 		if strings.HasSuffix(rest, "<unfinished ...>") {
 			head := strings.TrimSuffix(rest, "<unfinished ...>")
 			pending[pid] = head
